@@ -87,6 +87,18 @@ fn run_script(mode: Mode, src: &str, data: Vec<u8>, steps: &[Step]) -> String {
             let r = Constructed::decode(&mut s, mode, |cons| run_steps::<_, N3>(cons, steps, &mut x));
             finish(r, &x, Some(s.len()))
         }
+        _ if src.starts_with("osrc") => {
+            // the input is the content of an OCTET STRING used as the source (`osrc<k>`: segments of
+            // k octets in an indefinite constructed encoding; k = 0: primitive)
+            let k: usize = match src[4..].parse() { Ok(k) => k, Err(_) => return "bad-op".into() };
+            let enc = wrap_octet_string(&data, k);
+            let os = match Mode::Ber.decode(enc.as_slice(), |cons| bcder::OctetString::take_from(cons)) {
+                Ok(os) => os,
+                Err(_) => return "bad-op".into(),
+            };
+            let r = mode.decode(os, |cons| run_steps::<_, N3>(cons, steps, &mut x));
+            finish(r, &x, None)
+        }
         _ => {
             // streaming sources: "<policy>", "fail<k>:<policy>", "count:<policy>"
             if let Some(rest) = src.strip_prefix("fail") {
@@ -113,6 +125,71 @@ fn run_script(mode: Mode, src: &str, data: Vec<u8>, steps: &[Step]) -> String {
             finish(r, &x, Some(s.remaining()))
         }
     }
+}
+
+fn def_len(n: usize) -> Vec<u8> {
+    if n < 128 { vec![n as u8] }
+    else {
+        let mut v = vec![];
+        let mut m = n;
+        while m > 0 { v.insert(0, (m & 0xff) as u8); m >>= 8; }
+        let mut out = vec![0x80 | v.len() as u8];
+        out.extend(v);
+        out
+    }
+}
+
+pub fn wrap_octet_string(data: &[u8], k: usize) -> Vec<u8> {
+    let mut enc = Vec::new();
+    if k == 0 {
+        enc.push(0x04);
+        enc.extend(def_len(data.len()));
+        enc.extend_from_slice(data);
+    } else {
+        enc.extend_from_slice(&[0x24, 0x80]);
+        for chunk in data.chunks(k) {
+            enc.push(0x04);
+            enc.extend(def_len(chunk.len()));
+            enc.extend_from_slice(chunk);
+        }
+        enc.extend_from_slice(&[0, 0]);
+    }
+    enc
+}
+
+/// C08: the routine issues r requests on a fault-free stingy source; with the k-th request failing
+/// (every k < r, at most `cap` evenly chosen) the result must be the injected source error, or be
+/// identical to the fault-free result when the routine stops before request k.
+fn fault_sweep(mode: Mode, pol: Policy, data: Vec<u8>, steps: &[Step], cap: usize) -> String {
+    let mut x0 = Ctx::default();
+    let mut s0 = StreamSource::new(data.clone(), pol, None);
+    let r0 = mode.decode(&mut s0, |cons| run_steps::<_, N3>(cons, steps, &mut x0));
+    let total = s0.requests;
+    let base = finish(r0, &x0, Some(s0.remaining()));
+    let ks: Vec<usize> = if total <= cap { (0..total).collect() } else {
+        let mut v: Vec<usize> = (0..cap).map(|i| i * total / cap).collect();
+        v.push(total - 1);
+        v.dedup();
+        v
+    };
+    let mut checked = 0;
+    for k in ks {
+        let mut x = Ctx::default();
+        let mut s = StreamSource::new(data.clone(), pol, Some(k));
+        let r = mode.decode(&mut s, |cons| run_steps::<_, N3>(cons, steps, &mut x));
+        let fired = s.requests > k;
+        let ans = finish(r, &x, Some(s.remaining()));
+        checked += 1;
+        if fired {
+            if ans != "err source" {
+                return format!("FAULTBAD k={} of {} got=[{}] base=[{}]", k, total, ans, base);
+            }
+        } else if ans != base {
+            return format!("FAULTBAD k={} of {} (not reached) got=[{}] base=[{}]", k, total, ans, base);
+        }
+    }
+    // one past the end must change nothing
+    format!("ok requests={} checked={} base=[{}]", total, checked, base)
 }
 
 fn enc_int(ty: IntTy, v: &str) -> Option<String> {
@@ -239,6 +316,40 @@ fn handle_toks(toks: &[&str]) -> Option<String> {
             let mut t = Toks::new(toks[4..].to_vec());
             let steps = parse_steps(&mut t, false)?;
             run_script(mode, src, data, &steps)
+        }
+        "enc" => {
+            let mode = parse_mode(toks.get(1)?)?;
+            let mut p = crate::enc::P { t: &toks[2..], i: 0 };
+            let v = crate::enc::parse_v(&mut p)?;
+            if p.i != toks.len() - 2 { return None; }
+            let (l, w) = crate::enc::encode(&v, mode);
+            format!("ok len={} {}", l, to_hex(&w))
+        }
+        "rt" => {
+            // rt <mode> <encoder tree> ;; <script> : encode with the real combinators, decode the
+            // produced octets with the real readers in the same mode (DER output also in BER mode)
+            let mode = parse_mode(toks.get(1)?)?;
+            let sep = toks.iter().position(|t| *t == ";;")?;
+            let mut p = crate::enc::P { t: &toks[2..sep], i: 0 };
+            let v = crate::enc::parse_v(&mut p)?;
+            if p.i != sep - 2 { return None; }
+            let mut t = Toks::new(toks[sep + 1..].to_vec());
+            let steps = parse_steps(&mut t, false)?;
+            let (l, w) = crate::enc::encode(&v, mode);
+            let a = run_script(mode, "slice", w.clone(), &steps);
+            let mut out = format!("ok len={} enc={} dec=[{}]", l, to_hex(&w), a);
+            if mode == Mode::Der {
+                out.push_str(&format!(" ber=[{}]", run_script(Mode::Ber, "slice", w, &steps)));
+            }
+            out
+        }
+        "faultsweep" => {
+            let mode = parse_mode(toks.get(1)?)?;
+            let pol = parse_policy(toks.get(2)?)?;
+            let data = of_hex(toks.get(3)?)?;
+            let mut t = Toks::new(toks[4..].to_vec());
+            let steps = parse_steps(&mut t, false)?;
+            fault_sweep(mode, pol, data, &steps, 48)
         }
         "prim" => {
             let mode = parse_mode(toks.get(1)?)?;
@@ -497,6 +608,9 @@ mod leaf {
     #[allow(dead_code)]
     pub fn unused(_: &mut Constructed<bcder::decode::SliceSource>) {}
 }
+
+pub fn integer_of_pub(c: &[u8]) -> Option<bcder::Integer> { leaf::integer_of(c) }
+pub fn unsigned_of_pub(c: &[u8]) -> Option<bcder::Unsigned> { leaf::unsigned_of(c) }
 
 pub fn handle_leaf(toks: &[&str]) -> Option<String> {
     use leaf::*;
